@@ -309,7 +309,7 @@ def gen_timeline(rng, sid, maxn=4, span=40, base=0, p_complete=0.55, p_error=0.2
     return msgs
 
 
-def gen_src(rng, sid, allow_sync=False, **kw):
+def gen_src(rng, sid, allow_sync=False, p_rude=0.15, **kw):
     r = rng.random()
     if allow_sync and r < 0.2:
         msgs = gen_timeline(rng, sid, **kw)
@@ -317,7 +317,7 @@ def gen_src(rng, sid, allow_sync=False, **kw):
     if r < 0.55:
         return {"mode": "cold", "msgs": gen_timeline(rng, sid, **kw)}
     spec = {"mode": "hot", "msgs": gen_timeline(rng, sid, base=SUBSCRIBE_AT - 10, **kw)}
-    if rng.random() < 0.15:
+    if rng.random() < p_rude:
         spec["rude"] = True
     return spec
 
@@ -329,7 +329,7 @@ def gen_dispose(rng, p=0.25):
 
 
 # --------------------------------------------------------------------------------------------- higher-order runs (C11, C12)
-def gen_ho_case(rng, op, max_inner=4, allow_sync=True):
+def gen_ho_case(rng, op, max_inner=4, allow_sync=True, p_rude=0.15):
     """outer source 0 whose elements name the inner sources 1..m; optional mapper table with raising entries."""
     m = rng.choice([0, 1, 2, 2, 3, 3, max_inner])
     ids = list(range(1, m + 1))
@@ -348,7 +348,7 @@ def gen_ho_case(rng, op, max_inner=4, allow_sync=True):
     outer = {"mode": "hot" if hot else "cold", "msgs": msgs}
     inners = {}
     for i in range(1, m + 1):
-        inners[str(i)] = gen_src(rng, i, allow_sync=allow_sync, span=30)
+        inners[str(i)] = gen_src(rng, i, allow_sync=allow_sync, p_rude=p_rude, span=30, p_complete=0.7, p_error=0.12)
     case = {"op": op, "outer": outer, "inners": inners, "dispose": gen_dispose(rng, 0.2)}
     if op in ("flat_map", "flat_map_indexed", "concat_map", "switch_map", "switch_map_indexed", "flat_map_latest") and ids and rng.random() < 0.25:
         case["raise_on"] = rng.choice(ids)   # the mapper raises on this outer element
